@@ -19,7 +19,10 @@ META = {
   "race_*: nested-atomic emulation, depth 1: process Q's whole p_shm_new runs at the entry of the k-th system call of process P's p_shm_new (one query per k)",
   "crash_*: SIGKILL of P before a symbolic one of its system calls or while idle (also while holding the lock); recovery = p_shm_new, take ownership, "
   "p_shm_free, p_shm_new again, where a first p_shm_new that fails is tolerated if the final one succeeds",
-  "allocator never fails (C18), no EINTR (C19), printf empty"],
+  "leftover_any_state: the kernel state of the name before the clean-up is constructed directly in the model (segment absent / any size and bytes, lock semaphore absent / value 0..2, "
+  "nobody attached) instead of being produced by kill sequences; zero-length leftovers are the open finding C07_crash_zero_size",
+  "lock_eintr_max2: sem_wait interrupted at a symbolic subset (<=2) of its invocations inside p_shm_lock; shm_names_*: see C06 names_len*_realkey",
+  "allocator never fails (C18), EINTR only in lock_eintr_* (the rest: C19), printf empty"],
  "outside": ["kernel semantics themselves; real page protection (P_SHM_ACCESS_READONLY)", "pshm-sysv.c (not built on this platform)", "more than 2 processes, one handle per process, one name",
              "preemption depth > 1 (A1 B1 A2 B2 interleavings)", "histories longer than the stated number of calls",
              "a p_shm_new that loses a first-open race may return NULL (it then holds nothing); only the handles handed out are required to be coherent",
@@ -53,12 +56,23 @@ def crash(pcalls, demo=False):
              hdefs=pools(pcalls + 3) + ["PCALLS=%d" % pcalls] + (["KF_DEMO_ZERO"] if demo else []), includes=REDIR,
              unwindset=dict(UW, **{"harness.0": pcalls + 1}), timeout=1500, funcs=FUNCS, kf="C07_crash_zero_size" if demo else None,
              bounds={"calls_of_killed_process": pcalls, "crash_point": "before any of its <=16 system calls, or idle", "segment_preexists": "symbolic"})
+def leftover():
+    demo = False
+    return Q("leftover_any_state", "harness/C07_leftover.c", units=SHM_UNITS, models=KM,
+             hdefs=pools(5) + (["KF_DEMO_ZERO"] if demo else []), includes=REDIR, unwindset=dict(UW, **{"harness.0": 13}), timeout=900, funcs=FUNCS,
+             kf="C07_crash_zero_size" if demo else None,
+             bounds={"leftover_segment": "absent or linked with any size 0..12 and any bytes", "leftover_lock_semaphore": "absent or linked with value 0..2",
+                     "attached_processes": 0, "new_sizes": "1..12 each"})
+def lock_eintr(n=2):
+    return Q("lock_eintr_max%d" % n, "harness/C07_lock_eintr.c", units=SHM_UNITS, models=KM, hdefs=pools(3) + ["EINTR_MAX=%d" % n], includes=REDIR,
+             unwindset=dict(UW, **{"p_semaphore_acquire.0": n + 2}), timeout=600, funcs=["p_shm_lock", "p_shm_unlock", "p_semaphore_acquire", "p_semaphore_release"],
+             bounds={"eintr_in_sem_wait": "symbolic subset, <= %d" % n, "other_process_holds_lock": "symbolic"})
 def is_open(fid):
     return any(f["id"] == fid and f.get("status") == "open" for f in load_findings())
 def names(tier):
     # long names through the real p_shm_new name handling + real SHA-1 key derivation (harness shared with C06)
     import C06
-    qs = [C06.names(n, kind=1) for n in ([51, 100] if tier == "quick" else C06.NAME_LENS)]
+    qs = [C06.names(n, kind=1) for n in ([51] if tier == "quick" else C06.NAME_LENS)]
     for q in qs: q.name = "shm_" + q.name
     return qs
 def queries(tier):
@@ -68,7 +82,7 @@ def queries(tier):
         qs = [hist(4), hist(5, timeout=3000), crash(4), crash(1, demo=True)]
     # Q's open before P's k-th system call: 1 shm_open, 2 ftruncate, 3 mmap, 4 close, 5 sem_open.  Positions 3..5 are the
     # known first-open race: while it is open one demonstration query runs, once fixed all positions are ordinary queries
-    qs += names(tier)
+    qs += names(tier) + [leftover(), lock_eintr(2)]
     qs += [race(1, False), race(2, False)]
     if is_open("C07_first_open_race"):
         qs += [race(5, True)]
